@@ -1,351 +1,18 @@
-import MgpuModel.Util
-/-! # C08 — model of grid partitioning (work-groups, wavefronts, lanes)
+import MgpuModel.C08_Base
+import MgpuModel.C08_Regs
+import MgpuModel.C08_Res
+import MgpuModel.C08_Obj
+/-! # C08 — line protocol of the grid-partitioning model
 
-Transcribes, branch by branch:
-* `kernels.gridBuilderImpl`: `countWG`, `NextWG` (cursor, optional filter), `Skip`,
-  `spawnWorkItems`, `formWavefronts` (as repaired: one wavefront per 64-block of flattened ids;
-  the pinned pre-repair version is kept as `formStepOld` for the refutation witness);
-* lane-id initialisation of `emu.ComputeUnit.initWfRegs` and `cu.WfDispatcherImpl.initRegisters`
-  (x,y,z from `FirstWiFlatID + lane` with the full work-group pitch; V5 packing);
-* `driver.Driver.distributeWGToGPUs` and the work-group filter closure;
-* `dispatching.partitionAlgorithm` (`StartNewKernel`, `Next`, `nextWG`).
-Sizes are `Nat` (the Go code uses uint16/uint32/int; all quantities of the property are far below
-2^31 — grid ≤ 2^32 per axis is the dispatch packet's limit and is not modelled as wrap-around). -/
+The definitions live in `C08_Base.lean` (grid builder, lanes, driver split, partition algorithm,
+fixed-width arithmetic), `C08_Regs.lean` (initial SGPR image against the ABI layout, work-group
+count registers, HIP hidden kernel arguments, dispatch packet layout, signed 64-bit split),
+`C08_Res.lean` (partition algorithm against CU capacities with `FreeResources`) and
+`C08_Obj.lean` (object identity of work-groups / wavefronts). -/
 namespace C08
 open Util
 
-/-- dispatch geometry: grid size and work-group size per axis -/
-structure Geo where
-  gx : Nat
-  gy : Nat
-  gz : Nat
-  wx : Nat
-  wy : Nat
-  wz : Nat
-deriving Repr, DecidableEq
-
-/-- the grid builder's cursor (`xid`,`yid`,`zid`) -/
-structure Cur where
-  x : Nat
-  y : Nat
-  z : Nat
-deriving Repr, DecidableEq
-
-abbrev Coord := Nat × Nat × Nat
-
-/-- a produced work-group: its id and its current (clipped) size -/
-structure WG where
-  id : Coord
-  sz : Coord
-deriving Repr, DecidableEq
-
-/-- `(g-1)/w + 1` — number of work-groups along one axis (`countWG`, driver, filter closure) -/
-def nwg (g w : Nat) : Nat := (g - 1) / w + 1
-
-def Geo.nx (g : Geo) : Nat := nwg g.gx g.wx
-def Geo.ny (g : Geo) : Nat := nwg g.gy g.wy
-def Geo.nz (g : Geo) : Nat := nwg g.gz g.wz
-def Geo.total (g : Geo) : Nat := g.nx * g.ny * g.nz
-
-/-- one pass of the loop body of `NextWG` (no filter): `none` = return nil (cursor unchanged),
-    otherwise the group and the advanced cursor -/
-def nextWG (g : Geo) (c : Cur) : Option (WG × Cur) :=
-  if g.gx ≤ c.x * g.wx ∨ g.gy ≤ c.y * g.wy ∨ g.gz ≤ c.z * g.wz then none else
-  let xs := min (g.gx - c.x * g.wx) g.wx
-  let ys := min (g.gy - c.y * g.wy) g.wy
-  let zs := min (g.gz - c.z * g.wz) g.wz
-  let c' : Cur :=
-    if g.gx ≤ c.x * g.wx + xs then
-      if g.gy ≤ c.y * g.wy + ys then ⟨0, 0, c.z + 1⟩ else ⟨0, c.y + 1, c.z⟩
-    else ⟨c.x + 1, c.y, c.z⟩
-  some (⟨(c.x, c.y, c.z), (xs, ys, zs)⟩, c')
-
-/-- `NextWG` with a filter: loop until the filter accepts or the grid is exhausted.
-    `fuel` bounds the loop; `g.total + 1` is always enough (theorem `nextWGf_spec`). -/
-def nextWGf (g : Geo) (p : Coord → Bool) : Nat → Cur → Option (WG × Cur)
-  | 0, _ => none
-  | fuel + 1, c =>
-    match nextWG g c with
-    | none => none
-    | some (wg, c') => if p wg.id then some (wg, c') else nextWGf g p fuel c'
-
-/-- `k` successive calls of `NextWG` (this is `Skip k` when the results are dropped);
-    the cursor does not move once nil is returned -/
-def enumFrom (g : Geo) (p : Coord → Bool) : Nat → Cur → List WG × Cur
-  | 0, c => ([], c)
-  | k + 1, c =>
-    match nextWGf g p (g.total + 1) c with
-    | none => ([], c)
-    | some (wg, c') => let r := enumFrom g p k c'; (wg :: r.1, r.2)
-
-/-- `Skip n` -/
-def skip (g : Geo) (p : Coord → Bool) (n : Nat) (c : Cur) : Cur := (enumFrom g p n c).2
-
-/-- the coordinates visited by the counting loops of `countWG` (x outermost) -/
-def countLoop (g : Geo) : List Coord :=
-  (List.range g.nx).flatMap fun i => (List.range g.ny).flatMap fun j => (List.range g.nz).map fun k => (i, j, k)
-
-/-- `countWG` -/
-def countWG (g : Geo) (p : Option (Coord → Bool)) : Nat :=
-  match p with
-  | none => g.nx * g.ny * g.nz
-  | some p => (countLoop g).countP p
-
-/-- `spawnWorkItems`: z outermost, x fastest -/
-def spawn (sz : Coord) : List Coord :=
-  (List.range sz.2.2).flatMap fun z => (List.range sz.2.1).flatMap fun y => (List.range sz.1).map fun x => (x, y, z)
-
-/-- flattened in-group id with the FULL work-group pitch (`inWGID`, `FlattenedID`) -/
-def flatId (wx wy : Nat) (it : Coord) : Nat := it.2.2 * wx * wy + it.2.1 * wx + it.1
-
-structure Wf where
-  first : Nat
-  mask : Nat
-  cnt : Nat
-deriving Repr, DecidableEq
-
-/-- one iteration of the loop of `formWavefronts` (repaired code); wavefronts are kept newest
-    first, `formWfs` reverses at the end -/
-def formStep (wx wy : Nat) (wfs : List Wf) (it : Coord) : List Wf :=
-  let id := flatId wx wy it
-  match wfs with
-  | w :: rest =>
-    if id / 64 ≠ w.first / 64 then ⟨id - id % 64, 1 <<< (id % 64), 1⟩ :: w :: rest
-    else ⟨w.first, w.mask ||| (1 <<< (id % 64)), w.cnt + 1⟩ :: rest
-  | [] => [⟨id - id % 64, 1 <<< (id % 64), 1⟩]
-
-def formWfsRev (wx wy : Nat) (items : List Coord) : List Wf := items.foldl (formStep wx wy) []
-def formWfs (wx wy : Nat) (items : List Coord) : List Wf := (formWfsRev wx wy items).reverse
-
-/-- the loop body as pinned before the repair: a new wavefront only when `id % 64 = 0` -/
-def formStepOld (wx wy : Nat) (wfs : List Wf) (it : Coord) : List Wf :=
-  let id := flatId wx wy it
-  let wfs := if id % 64 = 0 then ⟨id, 0, 0⟩ :: wfs else wfs
-  match wfs with
-  | w :: rest => ⟨w.first, w.mask ||| (1 <<< (id % 64)), w.cnt + 1⟩ :: rest
-  | [] => []   -- nil dereference in Go; unreachable: the first item has id 0
-def formWfsOld (wx wy : Nat) (items : List Coord) : List Wf := (items.foldl (formStepOld wx wy) []).reverse
-
-/-- x,y,z as both `initWfRegs` and `initRegisters` compute them from a flattened id -/
-def decodeId (wx wy i : Nat) : Coord :=
-  (i % (wx * wy) % wx, i % (wx * wy) / wx, i / (wx * wy))
-
-/-- enabled lanes of a mask -/
-def lanesOf (mask : Nat) : List Nat := (List.range 64).filter fun l => mask.testBit l
-
-/-- the coordinates that the enabled lanes of the wavefronts are initialised with -/
-def laneCoords (wx wy : Nat) (wfs : List Wf) : List Coord :=
-  wfs.flatMap fun w => (lanesOf w.mask).map fun l => decodeId wx wy (w.first + l)
-
-/-- registers v0,v1,v2 of one lane after initialisation (both modes after the V5 repair of the
-    timing dispatcher): packed for V5 code objects, else x / y if enabled / z if enabled -/
-def laneRegs (v5 : Bool) (en : Nat) (c : Coord) : Nat × Nat × Nat :=
-  if v5 then ((c.1 % 2^32) ||| ((c.2.1 <<< 10) % 2^32) ||| ((c.2.2 <<< 20) % 2^32), 0, 0)
-  else (c.1 % 2^32, if en > 0 then c.2.1 % 2^32 else 0, if en > 1 then c.2.2 % 2^32 else 0)
-
-/-- what a V5 kernel extracts from the packed register -/
-def unpackV5 (v : Nat) : Coord := (v % 1024, v / 1024 % 1024, v / 1048576 % 1024)
-
-/-- `distributeWGToGPUs`: cumulative ranges proportional to CU counts -/
-def wgDist (wgPerCU : Nat) : List Nat → Nat → List Nat
-  | [], acc => [acc]
-  | c :: cs, acc => acc :: wgDist wgPerCU cs (acc + c * wgPerCU)
-
-def wgPerCU (total sumCU : Nat) : Nat := (total - 1) / sumCU + 1
-
-/-- the `WGFilter` closure of GPU `i` -/
-def gpuFilter (g : Geo) (dist : List Nat) (i : Nat) (c : Coord) : Bool :=
-  let f := c.2.2 * g.nx * g.ny + c.2.1 * g.nx + c.1
-  decide (dist.getD i 0 ≤ f) && decide (f < dist.getD (i + 1) 0)
-
-/-! ## partition algorithm -/
-
-structure PState where
-  rem : Array (List WG)        -- what the grid builder of partition i still yields
-  cur : Array (Option WG)      -- currWGs
-  disp : Array Nat             -- partitions[i].dispatchedWG
-  per : Nat                    -- numWGPerPartition
-  numWG : Nat
-  next : Nat                   -- nextPartition
-  nd : Nat                     -- numDispatchedWG
-
-/-- `StartNewKernel`: partition `i` owns a builder that skipped `i*per` groups -/
-def pStart (l : List WG) (numWG ncu : Nat) : PState :=
-  let per := (numWG - 1) / ncu + 1
-  { rem := Array.ofFn (n := ncu) fun i => l.drop (i.val * per),
-    cur := Array.replicate ncu none,
-    disp := Array.replicate ncu 0,
-    per := per, numWG := numWG, next := 0, nd := 0 }
-
-/-- `nextWG(i)`: the group CU `i` should try, and the partition it comes from -/
-def pNextWG (s : PState) (i : Nat) : PState × Option (WG × Nat) :=
-  if s.disp.getD i 0 ≥ s.per then
-    match (List.range s.cur.size).find? fun j => (s.cur.getD j none).isSome with
-    | some j => match s.cur.getD j none with
-      | some wg => (s, some (wg, j))
-      | none => (s, none)
-    | none => (s, none)
-  else match s.cur.getD i none with
-    | some wg => (s, some (wg, i))
-    | none =>
-      match s.rem.getD i [] with
-      | [] => (s, none)
-      | wg :: r => ({ s with rem := s.rem.setIfInBounds i r, cur := s.cur.setIfInBounds i (some wg) }, some (wg, i))
-
-/-- `Next`: `fails` = outcomes of the successive reservations (true = refused; all succeed once
-    the list is used up). Result: new state, remaining outcomes, `(cu, wg)` if dispatched. -/
-def pNext (s : PState) (fails : List Bool) : PState × List Bool × Option (Nat × WG) :=
-  if s.nd ≥ s.numWG then (s, fails, none) else
-  let n := s.cur.size
-  let rec go (k : Nat) (idx : Nat) (s : PState) (fails : List Bool) : PState × List Bool × Option (Nat × WG) :=
-    match k with
-    | 0 => (s, fails, none)
-    | k + 1 =>
-      let i := (idx + s.next) % n
-      match pNextWG s i with
-      | (s, none) => go k (idx + 1) s fails
-      | (s, some (wg, from_)) =>
-        let (refused, fails) := match fails with
-          | [] => (false, [])
-          | f :: r => (f, r)
-        if refused then go k (idx + 1) s fails
-        else ({ s with cur := s.cur.setIfInBounds from_ none,
-                       disp := s.disp.setIfInBounds from_ (s.disp.getD from_ 0 + 1),
-                       nd := s.nd + 1, next := i + 1 }, fails, some (i, wg))
-  go n 0 s fails
-
-/-- `k` successive calls of `Next` against one stream of reservation outcomes (the stream is
-    threaded through the calls; a call that dispatches nothing — every offer refused, or the kernel
-    finished — is simply followed by the next call, as the dispatcher does every tick).
-    Result: final state, unused outcomes, the `(cu, wg)` hand-outs in order. -/
-def pRun : Nat → PState → List Bool → PState × List Bool × List (Nat × WG)
-  | 0, s, f => (s, f, [])
-  | k + 1, s, f =>
-    match pNext s f with
-    | (s', f', none) => pRun k s' f'
-    | (s', f', some d) => let r := pRun k s' f'; (r.1, r.2.1, d :: r.2.2)
-
-/-! ## fixed-width arithmetic of the launch path
-
-The dispatch packet holds `GridSize*` as `uint32` and `WorkgroupSize*` as `uint16` (inputs are
-`g < 2^32`, `w < 2^16` by type). REPAIRED code (`numWGInDim` in `kernels/gridbuilder.go` and
-`driver/driver.go`): the per-axis count is `(int(g)+int(w)-1)/int(w)` and the product of the three
-counts is an `int` product (64 bits; modelled as the low 64 bits of the `Nat` product);
-`wgPerCU = (total+CUs-1)/CUs`. The code as pinned before the repair (`(g-1)/uint32(w)+1` and the
-product IN `uint32`, `countWG` converting a `uint32` difference) is kept with the suffix `Old`.
-(Wrap-around subtraction is written with `if`, never as `+ 2^32`.) -/
-
-/-- `numWGInDim`: `(int(g) + int(w) - 1) / int(w)`; 0 for an empty axis -/
-def nwgI (g w : Nat) : Nat := (g + w - 1) / w
-
-/-- `numWGX * numWGY * numWGZ` in `int`: the low 64 bits of the product -/
-def Geo.totalI (g : Geo) : Nat :=
-  (nwgI g.gx g.wx * nwgI g.gy g.wy % 18446744073709551616) * nwgI g.gz g.wz % 18446744073709551616
-
-/-- `(totalWGCount + totalCUCount - 1) / totalCUCount` -/
-def wgPerCUI (total sumCU : Nat) : Nat := (total + sumCU - 1) / sumCU
-
-/-- the `WGFilter` closure of the repaired driver -/
-def gpuFilterI (g : Geo) (dist : List Nat) (i : Nat) (c : Coord) : Bool :=
-  let nx := nwgI g.gx g.wx
-  let ny := nwgI g.gy g.wy
-  let f := c.2.2 * nx * ny + c.2.1 * nx + c.1
-  decide (dist.getD i 0 ≤ f) && decide (f < dist.getD (i + 1) 0)
-
-/-- `distributeWGToGPUs` of the repaired driver: fault or the cumulative ranges -/
-def distI (g : Geo) (cus : List Nat) : Except String (List Nat) :=
-  if g.wx = 0 ∨ g.wy = 0 ∨ g.wz = 0 ∨ cus.sum = 0 then .error "div0" else
-  let dist := wgDist (wgPerCUI g.totalI cus.sum) cus 0
-  if dist.getLast! < g.totalI then .error "not_all_allocated" else .ok dist
-
-/-- the GPUs that receive a launch request (non-empty range) -/
-def launched (d : List Nat) (n : Nat) : List Nat :=
-  (List.range n).filter fun i => decide (d.getD (i + 1) 0 - d.getD i 0 ≠ 0)
-
-/-- what the launch path does not check and the model assumes: no empty axis, typed ranges, and
-    fewer than 2^63 work-groups (the `int` product does not overflow) -/
-def Geo.NoWrap (g : Geo) : Prop :=
-  (1 ≤ g.gx ∧ g.gx < 4294967296) ∧ (1 ≤ g.gy ∧ g.gy < 4294967296) ∧ (1 ≤ g.gz ∧ g.gz < 4294967296) ∧
-  (1 ≤ g.wx ∧ g.wx < 65536) ∧ (1 ≤ g.wy ∧ g.wy < 65536) ∧ (1 ≤ g.wz ∧ g.wz < 65536) ∧
-  g.nx * g.ny * g.nz < 9223372036854775808
-
-instance (g : Geo) : Decidable g.NoWrap := by unfold Geo.NoWrap; exact inferInstance
-
-/-! ### the pinned code before the repair -/
-
-/-- `(g-1)/uint32(w) + 1` in `uint32`: `g-1` wraps to `2^32-1` for `g = 0` -/
-def nwg32Old (g w : Nat) : Nat := ((if g = 0 then 4294967295 else g - 1) / w + 1) % 4294967296
-
-/-- `int(GridSize-1)/int(w) + 1` of the old `countWG`: the subtraction is `uint32`, the rest 64-bit -/
-def nwg64Old (g w : Nat) : Nat := (if g = 0 then 4294967295 else g - 1) / w + 1
-
-/-- `int(numWGX * numWGY * numWGZ)` of the old `distributeWGToGPUs`: the product wraps in `uint32` -/
-def Geo.total32Old (g : Geo) : Nat :=
-  (nwg32Old g.gx g.wx * nwg32Old g.gy g.wy % 4294967296) * nwg32Old g.gz g.wz % 4294967296
-
-/-- `(totalWGCount-1)/totalCUCount + 1` with Go's `int` division (toward zero): for a total that
-    wrapped to 0 this is `(-1)/n + 1` = 1 (0 when `n = 1`) -/
-def wgPerCU64Old (total sumCU : Nat) : Nat :=
-  if total = 0 then (if sumCU = 1 then 0 else 1) else (total - 1) / sumCU + 1
-
-def gpuFilter32Old (g : Geo) (dist : List Nat) (i : Nat) (c : Coord) : Bool :=
-  let nx := nwg32Old g.gx g.wx
-  let ny := nwg32Old g.gy g.wy
-  let f := c.2.2 * nx * ny + c.2.1 * nx + c.1
-  decide (dist.getD i 0 ≤ f) && decide (f < dist.getD (i + 1) 0)
-
-def dist32Old (g : Geo) (cus : List Nat) : Except String (List Nat) :=
-  if g.wx = 0 ∨ g.wy = 0 ∨ g.wz = 0 ∨ cus.sum = 0 then .error "div0" else
-  let dist := wgDist (wgPerCU64Old g.total32Old cus.sum) cus 0
-  if dist.getLast! < g.total32Old then .error "not_all_allocated" else .ok dist
-
-/-! ## line protocol -/
-
-def coordStr (c : Coord) : String := s!"{c.1}.{c.2.1}.{c.2.2}"
-def wgStr (w : WG) : String := coordStr w.id ++ "/" ++ coordStr w.sz
-
-def parse3 (s : String) : Option Coord :=
-  match natList? s with
-  | some [a, b, c] => some (a, b, c)
-  | _ => none
-
-def mix (h v : Nat) : Nat := ((h ^^^ v) * 1099511628211) % 18446744073709551616
-
-structure Split where
-  dist : List Nat
-  filt : Option (Coord → Bool)
-
-/-- the driver's split for a CU vector: `Except fault (dist, filter of gpu or none = not launched)` -/
-def split (g : Geo) (cus : List Nat) (gpu : Nat) : Except String Split :=
-  let sum := cus.sum
-  if sum = 0 then .error "div0" else
-  let dist := wgDist (wgPerCU g.total sum) cus 0
-  if dist.getLast! < g.total then .error "not_all_allocated" else
-  if dist.getD (gpu + 1) 0 - dist.getD gpu 0 = 0 then .ok ⟨dist, none⟩
-  else .ok ⟨dist, some (gpuFilter g dist gpu)⟩
-
-def distStr (d : List Nat) : String := joinWith "," (d.map toString)
-
-def geoOf (t : List String) : Option Geo :=
-  match (kv? t "g").bind parse3, (kv? t "w").bind parse3 with
-  | some (gx, gy, gz), some (wx, wy, wz) => some ⟨gx, gy, gz, wx, wy, wz⟩
-  | _, _ => none
-
-def cusOf (t : List String) : Option (List Nat) := (kv? t "cu").bind natList?
-
-def runPart (l : List WG) (numWG ncu : Nat) (fails : List Bool) (cap : Nat) : List String :=
-  let rec loop (k : Nat) (s : PState) (fails : List Bool) (acc : Array String) : Array String :=
-    match k with
-    | 0 => if s.nd < s.numWG then acc.push "stuck" else acc
-    | k + 1 =>
-      if s.nd < s.numWG then
-        match pNext s fails with
-        | (s, fails, none) => loop k s fails (acc.push "-")
-        | (s, fails, some (i, wg)) => loop k s fails (acc.push s!"{i}:{wgStr wg}")
-      else acc
-  (loop cap (pStart l numWG ncu) fails #[]).toList
-
-def handle (line : String) : String :=
+def handleBase (line : String) : String :=
   let t := words line
   match t with
   | "c08" :: "dist" :: _ =>
@@ -423,5 +90,20 @@ def handle (line : String) : String :=
       s!"n={n} first={match nextWG g ⟨0, 0, 0⟩ with | none => "nil" | some (w, _) => wgStr w}"
     | none => "bad"
   | _ => "bad"
+
+/-- one case line in, one line out: the new kinds (`sgpr`, `hidden`, `dist64`, `partr`, `obj`) are
+    answered by the models of `C08_Regs` / `C08_Res` / `C08_Obj`, every earlier kind by `handleBase`
+    (unchanged) -/
+def handle (line : String) : String :=
+  let t := words line
+  match handleRegs t with
+  | some r => r
+  | none =>
+    match handleRes t with
+    | some r => r
+    | none =>
+      match handleObj t with
+      | some r => r
+      | none => handleBase line
 
 end C08
